@@ -34,7 +34,7 @@ CHECKS = {
             "C09_convert_total (the conversion after decoding returns a configuration or an error for every decoded structure, never a panic), C09_parse_total / C09_hidi_total (with the recover guard, every outcome of the third-party decoder — ok, error, panic — gives a configuration or an error), C09_guard_needed (without the guard a decoder panic escapes: the defect repaired in the repository), C09_source_facts (both entry points defer a recover — regenerated).",
             "go-toml decoding itself is third-party and only exercised (mutation search, labelled as fuzzing); hangs are caught by time-outs only."),
     "C10": ("Lean 4 proof over hand-written parser model + differential correspondence",
-            "C10_in_range (every accepted configuration satisfies Accepted: notes, controllers, offsets, velocity, default channel and default mapping in range — the hypothesis of the engine theorems), C10_scalars, C10_key_number / C10_key_name / C10_key_rejects, C10_rejects_mode / channel / velocity / default_mapping / action_table, C10_table_values (every bound value is the conversion of a file entry), C10_table_complete (an accepted table binds exactly the codes the file names, each once; a code named once is bound to the conversion of its own value), C10_mapping_keys_complete / C10_mapping_keys_sound (every key line of a mapping is in the accepted mapping under (sub-handler, code), and nothing else), C10_table_rejects.",
+            "C10_in_range (every accepted configuration satisfies Accepted: notes, controllers, offsets, velocity, default channel and default mapping in range — the hypothesis of the engine theorems), C10_scalars, C10_key_number / C10_key_name / C10_key_rejects, C10_rejects_mode / channel / velocity / default_mapping / action_table, C10_table_values (every bound value is the conversion of a file entry), C10_table_complete (an accepted table binds exactly the codes the file names, each once; a code named once is bound to the conversion of its own value), C10_mapping_keys_complete / C10_mapping_keys_sound (every key line of a mapping is in the accepted mapping under (sub-handler, code), and nothing else), C10_mapping_axes_complete (the same for axis tables, deadzone tables and default deadzones), C10_table_rejects.",
             "The TOML decoder (go-toml, DisallowUnknownFields) is outside the model: unknown fields are decided by the differential run. Two spellings of one code in one table have no determined meaning (Go map iteration)."),
     "C11": ("Lean 4 proof (all strings) + exhaustive correspondence up to length 3/4",
             "C11_roundtrip, C11_only_names, C11_case, C11_rejects over all character lists.",
